@@ -641,8 +641,8 @@ class Executor(object):
                 if name.startswith('F:'):
                     cls = name[2:].rsplit('.', 1)[0]
                     ci = self.reg.classes.get(cls)
-                    if ci is not None and self._family(cls) == 'writer':
-                        lvl = self.harr(entry, 'F:rbql_engine.RBQLOutputWriter.level', ArrS(INT, INT))
+                    if ci is not None and self._family(cls) == 'writer' and self._family_root(cls) == self._family_root(self._obj_class(v.pt)):
+                        lvl = self.harr(entry, 'F:%s.level' % self._family_root(cls), ArrS(INT, INT))
                         out.append(Le(Select(lvl, r), Select(lvl, v.t)))
                 elif name.startswith('L:'):
                     wo = self.ghost_set(st_final, '$wowned')
@@ -661,6 +661,28 @@ class Executor(object):
         if fam == 'aggregator':
             return name.startswith('D:Key:') or name.startswith('DK:Key:')
         return False
+
+    def _obj_class(self, pt):
+        if pt.kind == 'opt':
+            pt = pt.args[0]
+        return pt.args[0] if pt.kind == 'obj' else None
+
+    def _family_root(self, cls):
+        """the class that declares the family of cls (each root has its own `level` ghost array: Python and JavaScript writers are separate families)"""
+        seen = set()
+        work = [cls]
+        while work:
+            c = work.pop()
+            if c in seen or c is None:
+                continue
+            seen.add(c)
+            ci = self.reg.classes.get(c)
+            if ci is None:
+                continue
+            if ci.family:
+                return c
+            work.extend(ci.bases)
+        return None
 
     def _family(self, cls):
         seen = set()
@@ -1195,7 +1217,7 @@ class Executor(object):
     LIST_MUTATORS = set(['append', 'insert', 'extend', 'reverse', 'remove', 'pop', 'sort'])
     SET_MUTATORS = set(['add'])
     PURE_BUILTINS = set(['len', 'isinstance', 'int', 'float', 'str', 'tuple', 'enumerate', 'range', 'xrange', 'min', 'max',
-                         'type', 'abs', 'bool', 'ord', 'sorted', 'list', 'set', 'dict', 'sum', 'defaultdict', 'OrderedDict'])
+                         'type', 'abs', 'bool', 'ord', 'sorted', 'list', 'set', 'dict', 'sum', 'defaultdict', 'OrderedDict', '__js_map_get', '__js_math_min', '__js_math_max', '__js_str'])
 
     def _all_array_names(self, st):
         out = set(st.heap)
@@ -1556,7 +1578,7 @@ class Executor(object):
             return SV(PT('class'), py=name)
         if name in ('len', 'isinstance', 'int', 'float', 'str', 'list', 'tuple', 'sorted', 'enumerate', 'range', 'min', 'max',
                     'sum', 'dict', 'set', 'type', 'abs', 'bool', 'ord', 'all', 'any', 'next', 'compile', 'exec', 'open', 'print',
-                    'basestring', 'xrange', 'unicode'):
+                    'basestring', 'xrange', 'unicode', '__js_map_get', '__js_math_min', '__js_math_max', '__js_str'):
             return SV(PT('func'), py=('builtin', name))
         return None
 
